@@ -1,3 +1,4 @@
+import os
 """Long-lived engine workers (one process each, every run forked inside it) and a parallel batch runner."""
 import queue
 import subprocess
@@ -101,7 +102,11 @@ class Worker:
         self.start()
 
     def start(self):
-        self.p = subprocess.Popen([self.exe], stdin=subprocess.PIPE, stdout=subprocess.PIPE, stderr=subprocess.DEVNULL, text=True, bufsize=1, env=self.env)
+        env = self.env
+        dbg = os.environ.get("VERIF_ENGINE_PRELOAD")  # diagnosis only: an instrumented copy of a repo library in front of the engine, its stderr to a file
+        if dbg:
+            env = dict(env if env is not None else os.environ, LD_PRELOAD=dbg)
+        self.p = subprocess.Popen([self.exe], stdin=subprocess.PIPE, stdout=subprocess.PIPE, stderr=open(os.environ["VERIF_ENGINE_STDERR"], "a") if dbg and os.environ.get("VERIF_ENGINE_STDERR") else subprocess.DEVNULL, text=True, bufsize=1, env=env)
 
     def close(self):
         try:
